@@ -346,6 +346,18 @@ def summarize(ctx, res, replay=None, classify=None):
                 found_input=found,
             )
         else:
+            # an invariant / helper obligation broke.  That alone refutes the proof, not the
+            # property; but if the solver's model replays natively as a property failure
+            # it is reported as the violation it is.
+            if replay is not None and rec.get("model") is not None:
+                try:
+                    case, found = replay(rec)
+                except Exception as e:
+                    case, found = {"replay_error": repr(e)}, False
+                if found:
+                    klass = classify(rec, case) if classify else None
+                    ctx.fail(klass, f"obligation {rec['id']} refuted by {rec['backend']} and the counterexample fails the property on the real code: {rec['goal'][:120]}", case, obligation=rec["id"], solver_output=model_txt, found_input=True)
+                    continue
             ctx.undecide(rec["id"], f"auxiliary obligation refuted ({rec['goal'][:100]}); the proof broke, the property is not refuted")
 
 
